@@ -7,6 +7,11 @@ rule; R09.4 row_offset at every _encode call equals the lower bound of the slice
 segment; R09.5 row space: the row index used for lookup must be the row's position in the table, not
 in the page; R09.6 per-page fresh copy (shared with C07); R09.7 attribute columns cut with the
 removed index set of the original frame (shared with C08).
+
+R09.2 / R09.3 are read off ONE symbolic evaluation of each of the three model-building functions
+(tablecore.TDT: symbolic frame, widths, offset, attribute objects; one generic row i and column j): the
+constructor arguments of TextContent / Cell / Row are terms that name the attribute and the index
+expressions of the lookup.  R09.1 is set logic over the declared fields and those bindings.
 """
 from __future__ import annotations
 
@@ -26,109 +31,72 @@ ROW_BIND = {"justification": "cell_justification", "height": "cell_height"}
 STRUCTURAL = {"col_rel_width": "Utils._col_widths (column boundaries)", "border_first": "PageFeatureProcessor (page-edge hierarchy)",
               "border_last": "PageFeatureProcessor (page-edge hierarchy)",
               "cell_nrow": "TableAttributes._encode line-count slot (not a rendering attribute)"}
+TABLES = {"TextContent": TEXT_BIND, "Cell": CELL_BIND, "Row": ROW_BIND}
+SITES = T.SITES
 
 
-def _models_at(site: str, pm):
-    """(scenario tag, model class, {field: value}, (i, j) or None, record) for every TextContent / Cell / Row the interpreted scenarios of
-    `site` construct and emit; errors -> [("error", message)]"""
-    out, errors = [], []
-    if site == "TableAttributes._encode":
-        for rec in T.encode_scenarios(pm):
-            tag = f"{rec['shape']} attributes, cell_nrow {'set' if rec['nrow_set'] else 'unset'}"
-            if "error" in rec:
-                errors.append(f"{site} ({tag}): {rec['error']}")
+def _site_lookups(ctx: Ctx, short: str):
+    """[(model, field, [Lookup], [unrecognised alternatives], value term, call effect, valuation, all effects)] for every bound field of every model built at the site"""
+    site, models = T.site_models(ctx, short)
+    if isinstance(site, Exception):
+        return site, []
+    out = []
+    for model, kw, e, v, eff in models:
+        for fld in TABLES[model]:
+            if fld not in kw:
+                out.append((model, fld, None, [], None, e, v, eff))
                 continue
-            for i, row in enumerate(rec["rows"]):
-                out.append((tag, "Row", row.attrs, (i, 0), rec))
-                cells = row.attrs.get("row_cells")
-                for j, cell in enumerate(cells if isinstance(cells, (list, tuple)) else []):
-                    if isinstance(cell, T.Obj) and cell.cls == "Cell":
-                        out.append((tag, "Cell", cell.attrs, (i, j), rec))
-                        tc = cell.attrs.get("text")
-                        if isinstance(tc, T.Obj) and tc.cls == "TextContent":
-                            out.append((tag, "TextContent", tc.attrs, (i, j), rec))
-    elif site == "TextAttributes._encode_text":
-        for rec in T.text_scenarios(pm):
-            tag = f"{rec['shape']} attributes, method {rec['method']}"
-            if "error" in rec:
-                errors.append(f"{site} ({tag}): {rec['error']}")
+            val = T._unborder(kw[fld])
+            if val is None:
+                out.append((model, fld, [], [], None, e, v, eff))
                 continue
-            for tc in rec["texts"]:
-                t = tc.attrs.get("text")
-                idx = (int(t[1:]), 0) if isinstance(t, str) and t[:1] == "t" and t[1:].isdigit() else None
-                out.append((tag, "TextContent", tc.attrs, idx, rec))
-    else:
-        for rec in T.spanning_scenarios(pm):
-            tag = f"{rec['shape']} attributes"
-            if "error" in rec:
-                errors.append(f"{site} ({tag}): {rec['error']}")
-                continue
-            row = rec["row"]
-            out.append((tag, "Row", row.attrs, (0, rec["col"]), rec))
-            cells = row.attrs.get("row_cells")
-            for cell in (cells if isinstance(cells, (list, tuple)) else []):
-                if isinstance(cell, T.Obj) and cell.cls == "Cell":
-                    out.append((tag, "Cell", cell.attrs, (0, rec["col"]), rec))
-                    tc = cell.attrs.get("text")
-                    if isinstance(tc, T.Obj) and tc.cls == "TextContent":
-                        out.append((tag, "TextContent", tc.attrs, (0, rec["col"]), rec))
-    return out, errors
-
-
-def _entry(v):
-    """the attribute entry a model field was fed from: AV, None, or the value itself; Border(style=x) -> x"""
-    if isinstance(v, T.Obj) and v.cls == "Border":
-        return v.attrs.get("style")
-    return v
-
-
-SITES = ("TableAttributes._encode", "TextAttributes._encode_text", "RTFEncodingService.encode_spanning_row")
+            lks, other = T.lookups_of(val, site)
+            out.append((model, fld, lks, other, val, e, v, eff))
+    return site, out
 
 
 def r09_1_2(ctx: Ctx) -> None:
-    """binding table (model field <- attribute), read off the model objects the three encoders construct when they are
-    interpreted on mock attributes whose entries all carry their attribute's name"""
+    """binding table (model field <- attribute): which attribute each constructor argument of TextContent / Cell / Row is looked up in,
+    at the three sites, on every path"""
+    T.declare(ctx)
     pm = ctx.pm
-    T.scenario_note(ctx, "R09.2/R09.3", "TableAttributes._encode / TextAttributes._encode_text / RTFEncodingService.encode_spanning_row",
-                    "for every attribute entry (each entry is an atom tagged with attribute name, row, column) and every cell value",
-                    {"_encode": "3x2 segment (table rows 3..5 of 7, row_offset 3) x attribute shapes 7x2 / 1x2 / 1x1 x cell_nrow unset/set",
-                     "_encode_text": "3 text rows x methods paragraph / line x attribute shapes 3x1 / 1x1",
-                     "encode_spanning_row": "column 1, attribute shapes 7x3 / 1x1", "evaluations": 6 + 4 + 2})
-    ctx.explain("[R09.1] completeness is set logic over the declared fields and the bindings observed in those evaluations; it does not depend on the witness shapes.")
+    ctx.explain("[R09.1] completeness is set logic over the declared fields and the bindings read off those evaluations.")
     consumed: dict[str, set] = {}
     n_sites = 0
     for short in SITES:
         fi = pm.func(short)
-        models, errors = _models_at(short, pm)
-        for e in errors:
-            ctx.gap("R09.2", f"the models built by {e} could not be determined")
-        kinds = {m for _t, m, _a, _ij, _r in models}
+        site, rows = _site_lookups(ctx, short)
+        if isinstance(site, Exception):
+            ctx.gap("R09.2", f"the models built by {short} could not be determined: {site}")
+            continue
+        kinds = {m for m, *_ in rows}
         n_sites += len(kinds)
         for model in ("TextContent", "Cell", "Row"):
             if model not in kinds:
                 continue
-            table = {"TextContent": TEXT_BIND, "Cell": CELL_BIND, "Row": ROW_BIND}[model]
-            for fld, want in table.items():
-                seen, missing, undetermined = set(), 0, 0
-                for _tag, m, attrs, _ij, _rec in models:
-                    if m != model:
+            for fld, want in TABLES[model].items():
+                seen, missing, undetermined, none_only = set(), 0, [], 0
+                for m, f, lks, other, val, e, v, eff in rows:
+                    if m != model or f != fld:
                         continue
-                    if fld not in attrs:
+                    if lks is None:
                         missing += 1
                         continue
-                    v = _entry(attrs[fld])
-                    if isinstance(v, T.AV):
-                        seen.add(v.name)
-                    elif isinstance(v, T.Sym):
-                        undetermined += 1
-                    elif v is not None:
-                        seen.add(repr(v))
+                    if val is None:
+                        none_only += 1
+                        continue
+                    for lk in lks:
+                        if isinstance(lk.attr, str):
+                            seen.add(lk.attr)
+                        else:
+                            undetermined.append(T.path_of(lk.source)[:60])
+                    undetermined.extend(other)
                 if missing and not seen:
                     ctx.violation("R09.2", short, f"{model}.{fld} not passed", fi.where(), f"{short}: {model}(...) is built without {fld}; the cell falls back to the model default instead of the attribute {want}")
                     continue
                 if not seen:
                     if undetermined:
-                        ctx.gap("R09.2", f"{short}: the source of {model}.{fld} could not be determined")
+                        ctx.gap("R09.2", f"{short}: the source `{undetermined[0]}` of {model}.{fld} could not be determined")
                     else:
                         ctx.violation("R09.2", short, f"{model}.{fld} <- None", fi.where(), f"{short}: {model}.{fld} is always None, expected the attribute `{want}`")
                     continue
@@ -138,6 +106,8 @@ def r09_1_2(ctx: Ctx) -> None:
                         ctx.violation("R09.2", short, f"{model}.{fld} <- {got}", fi.where(), f"{short}: {model}.{fld} is fed from attribute `{got}`, expected `{want}`")
                     else:
                         consumed.setdefault(want, set()).add(short)
+                if undetermined:
+                    ctx.gap("R09.2", f"{short}: one source `{undetermined[0]}` of {model}.{fld} could not be determined")
                 if missing:
                     ctx.violation("R09.2", short, f"{model}.{fld} not passed", fi.where(), f"{short}: some {model}(...) are built without {fld}")
     if n_sites < 7 and not ctx.deferred_errors:
@@ -153,7 +123,7 @@ def r09_1_2(ctx: Ctx) -> None:
         elif f in STRUCTURAL:
             ctx.instance("R09.1", pm.cls(cls).path + f":{pm.classes[cls].fields[f].lineno}", f"{cls}.{f} consumed by {STRUCTURAL[f]}")
         elif ctx.deferred_errors and (f in TEXT_BIND.values() or f in CELL_BIND.values() or f in ROW_BIND.values()):
-            ctx.instance("R09.1", pm.cls(cls).path + f":{pm.classes[cls].fields[f].lineno}", f"{cls}.{f}: consumption undetermined (encoder not interpreted)")
+            ctx.instance("R09.1", pm.cls(cls).path + f":{pm.classes[cls].fields[f].lineno}", f"{cls}.{f}: consumption undetermined (encoder not evaluated)")
         else:
             ctx.instance("R09.1", pm.cls(cls).path + f":{pm.classes[cls].fields[f].lineno}", f"{cls}.{f} is accepted and validated but never reaches an emitter")
             ctx.violation("R09.1", f"{cls}.{f}", "never emitted", pm.cls(cls).path + f":{pm.classes[cls].fields[f].lineno}",
@@ -161,66 +131,83 @@ def r09_1_2(ctx: Ctx) -> None:
     ctx.floor("R09.1", 30)
 
 
+def _index_elems(site, e, eff):
+    """generic loop variables enclosing a constructor call, outermost first"""
+    return [x[2] for x in T._enclosing_loops(e[5], eff, site["fi"].node)]
+
+
 def r09_3(ctx: Ctx) -> None:
-    """lookup index: cell (i, j) of a segment starting at table row `off` carries entry [(i + off) % R][j % C] of every attribute
-    (scalar -> every cell, row vector -> its column, matrix -> cell by cell); row-level attributes use column 0"""
+    """lookup index: the entry reaching cell (i, j) of a segment that starts at table row `row_offset` is entry [(i + row_offset) % R][j % C] of
+    the attribute (scalar -> every cell, row vector -> its column, matrix -> cell by cell; row-level attributes use column 0): every
+    lookup term must be BroadcastValue(value=attribute).iloc(i + row_offset, j) - or the same modular subscript on the attribute itself -
+    with exactly these index expressions; BroadcastValue.iloc is verified separately (tablecore.broadcast_iloc)."""
+    T.declare(ctx)
     pm = ctx.pm
-    off = T.SEG[0]
     for short in SITES:
         fi = pm.func(short)
-        models, errors = _models_at(short, pm)
-        for e in errors:
-            ctx.gap("R09.3", f"the attribute lookups of {e} could not be determined")
-        by_tag: dict[str, list] = {}
+        site, rows = _site_lookups(ctx, short)
+        if isinstance(site, Exception):
+            ctx.gap("R09.3", f"the attribute lookups of {short} could not be determined: {site}")
+            continue
+        ps = T._pos_params(fi)
+        names = [a.arg for a in fi.node.args.args]
+        off_name = "row_offset" if "row_offset" in names else None
+        bad: dict[str, list] = {}
         n = 0
-        for tag, model, attrs, ij, rec in models:
-            if ij is None:
+        for model, fld, lks, other, val, e, v, eff in rows:
+            if not lks:
                 continue
-            table = {"TextContent": TEXT_BIND, "Cell": CELL_BIND, "Row": ROW_BIND}[model]
-            for fld in table:
-                v = _entry(attrs.get(fld))
-                if not isinstance(v, T.AV):
-                    continue
+            elems = _index_elems(site, e, eff)
+            for lk in lks:
                 n += 1
-                i, j = ij
+                row, col = lk.row, lk.col
+                # expected index expressions
                 if short == "TableAttributes._encode":
-                    want = T.expected_entry(v.name, rec["dims"], i + off, j)
-                    alt = T.expected_entry(v.name, rec["dims"], i, j) if fld == "border_right" else want   # the right border of the last column is read without the offset (accepted quirk)
+                    if len(elems) < 1:
+                        continue
+                    i = elems[0]
+                    j = elems[1] if len(elems) > 1 else None
+                    ip = T.loop_index_path(i)
+                    want_row = {ip: 1, **({off_name: 1} if off_name else {})}
+                    want_col = {T.loop_index_path(j): 1} if (j is not None and model != "Row") else {}
+                    alt_row = {ip: 1} if fld == "border_right" else want_row     # the right border of the last column is read without the offset (accepted quirk)
+                    where = "the cell's own (row + row_offset, column)"
+                elif short == "TextAttributes._encode_text":
+                    if not elems:
+                        continue                                  # the joined line of method 'line': bound, not indexed per row
+                    want_row = alt_row = {T.loop_index_path(elems[0]): 1}
+                    want_col = {}
+                    where = "the row the text belongs to"
                 else:
-                    want = alt = T.expected_entry(v.name, rec["dims"], i, j)
-                if v != want and v != alt:
-                    by_tag.setdefault(tag, []).append(f"{model}.{fld} of cell ({i}, {j}) <- {v!r}, expected {want!r}")
-        ctx.instance("R09.3", fi.where(), f"{short}: {n} attribute entries reaching models checked against [(i + offset) % R][j % C]")
-        for tag, bad in by_tag.items():
-            what = "the cell's own (row + row_offset, column)" if short == "TableAttributes._encode" else "the row / column the text belongs to"
-            ctx.violation("R09.3", short, f"lookup ({tag.split(',')[0]})", fi.where(),
-                          f"{short} ({tag}): {len(bad)} attribute entries are not looked up at {what}, e.g. {bad[0]}"
-                          + (" (a segment of a paginated table starts at row_offset; expanding to the segment's shape first cuts a full matrix down to the segment's first rows)" if short == "TableAttributes._encode" else ""))
+                    want_row = alt_row = {}
+                    want_col = {"col_idx": 1} if "col_idx" in names else None
+                    where = "row 0 of the column the spanning row inherits from"
+                tag = f"{model}.{fld} <- {lk.attr}[{T.path_of(lk.row_term)[:40]}][{T.path_of(lk.col_term)[:30]}] via {lk.via}"
+                if lk.via == "expanded":
+                    fs = T.frame_of_shape(lk.dim) if lk.dim is not None else None
+                    dim_txt = T.path_of(lk.dim)[:40]
+                    bad.setdefault("expanded", []).append(
+                        f"{model}.{fld} is read from `BroadcastValue(value={lk.attr}, dimension={dim_txt}).to_list()` at row `{T.path_of(lk.row_term)[:50]}`: the expansion has only as many rows "
+                        "as the segment handed in, so the index is reduced modulo the segment's height and a full matrix is cut down to the segment's first rows")
+                    continue
+                if row is None or col is None or want_col is None:
+                    ctx.gap("R09.3", f"{short}: index expressions of the lookup {tag} are not linear in the loop variables")
+                    continue
+                if (row != want_row and row != alt_row) or col != want_col:
+                    kind = "row" if (row != want_row and row != alt_row) else "column"
+                    bad.setdefault(kind, []).append(f"{model}.{fld} is looked up at [{T.path_of(lk.row_term)[:50]}][{T.path_of(lk.col_term)[:40]}] (closure arguments bound: row {row}, column {col}); "
+                                                    f"expected row {want_row}, column {want_col}")
+        ctx.instance("R09.3", fi.where(), f"{short}: {n} attribute lookups (all paths) checked against [(i + row_offset) % R][j % C]")
+        for kind, lst in bad.items():
+            ctx.violation("R09.3", short, f"lookup ({kind})", fi.where(),
+                          f"{short}: {len(lst)} attribute entries are not looked up at {where}, e.g. {lst[0]}"
+                          + (" (a segment of a paginated table starts at row_offset)" if short == "TableAttributes._encode" and kind == "row" else ""))
+        if not n:
+            ctx.gap("R09.3", f"{short}: no attribute lookup was re-identified")
     e = pm.func("TableAttributes._encode")
-    if any(rec.get("no_offset") for rec in T.encode_scenarios(pm)):
+    if "row_offset" not in [a.arg for a in e.node.args.args]:
         ctx.violation("R09.3", e.short, "no row_offset", e.where(), "_encode can no longer be told where its segment starts")
-    # BroadcastValue.iloc itself
-    il = pm.func("BroadcastValue.iloc")
-    ps = [a.arg for a in il.node.args.args]
-    T.scenario_note(ctx, "R09.3", "BroadcastValue.iloc", "for every entry of the block", {"block shapes": [(3, 2), (1, 2), (1, 1), (3, 1)], "indices": [(0, 0), (7, 5), (2, 1), (4, 3)], "evaluations": 16})
-    bad = []
-    try:
-        for shape in ((3, 2), (1, 2), (1, 1), (3, 1)):
-            for (r, c) in ((0, 0), (7, 5), (2, 1), (4, 3)):
-                sc = T.Scen(pm)
-                me = T.Obj("bv", cls="BroadcastValue", value=T.matrix("m", *shape), dimension=None)
-                runs = sc.runs(il, {ps[0]: me, ps[1]: r, ps[2]: c})
-                got = [x.ret for _v, x in runs]
-                if len(runs) != 1 or runs[0][1].raised or got != [T.expected_entry("m", shape, r, c)]:
-                    bad.append(f"iloc({r}, {c}) on a {shape[0]}x{shape[1]} block gives {got[0] if got else '?'!r}" + (f" / raises {runs[0][1].raised}" if runs and runs[0][1].raised else ""))
-        ctx.instance("R09.3", il.where(), f"BroadcastValue.iloc: value[r % R][c % C] on 16 (block shape, index) pairs: {not bad}")
-        if bad:
-            ctx.violation("R09.3", il.short, "modular rule", il.where(), "BroadcastValue.iloc is no longer value[row % nrows][col % ncols] (scalar -> every cell, vector -> its column, matrix -> cell by cell): " + bad[0])
-    except Exception as ex:
-        from ..pm import AnalysisError
-        if not isinstance(ex, (AnalysisError, IndexError)):
-            raise
-        ctx.gap("R09.3", f"BroadcastValue.iloc could not be interpreted: {ex}")
+    T.broadcast_iloc(ctx, "R09.3")
 
 
 def r09_5(ctx: Ctx) -> None:
@@ -244,15 +231,18 @@ def r09_5(ctx: Ctx) -> None:
 
 def check(ctx: Ctx) -> None:
     ctx.explain(
-        "The three encoders that build TextContent/Cell/Row (TableAttributes._encode, TextAttributes._encode_text, encode_spanning_row) are "
-        "interpreted on mock attribute objects whose every entry carries (attribute name, row, column) (tablecore.Scen; no repository code "
-        "runs). R09.2 the 14+5+2 (model field <- attribute) bindings are read off the constructed models; R09.1 every annotated field of "
-        "TextAttributes/TableAttributes reaches a model field that way or a listed structural consumer; R09.3 the entry reaching cell (i, j) "
-        "of a segment starting at table row `off` is [(i + off) % R][j % C] for matrix, row-vector and scalar attributes (BroadcastValue.iloc "
-        "itself is interpreted on 16 (block, index) pairs); R09.4 row_offset = first row of the segment (tablecore cursor scenarios); R09.5 "
-        "row-space agreement; R09.6 per-page deep copy and alias-free, exactly shaped expansion (C07 R07.4, BroadcastValue.to_list interpreted "
-        "on 8 (block, shape) pairs); R09.7 attribute columns cut by original-frame positions (C08 R08.3).")
-    ctx.assume("pydantic validates attribute shapes; BroadcastValue is the only lookup path; its `value` validator normalises to nested lists (tablecore.nested_list_form)")
+        "The three encoders that build TextContent/Cell/Row (TableAttributes._encode, TextAttributes._encode_text, encode_spanning_row) are each "
+        "evaluated once over symbolic inputs (tablecore.TDT: symbolic frame, widths, row_offset and attribute objects; one generic row i and one "
+        "generic column j; local lookup closures summarised once and composed with the arguments of each call). R09.2 the 14+5+2 (model field <- "
+        "attribute) bindings are the attribute names in the constructor-argument terms, on every path; R09.1 every annotated field of "
+        "TextAttributes/TableAttributes reaches a model field that way or a listed structural consumer; R09.3 every lookup term is "
+        "BroadcastValue(value=attribute).iloc(i + row_offset, j) (row-level: column 0; spanning row: (0, col_idx)) with exactly these linear index "
+        "forms, and BroadcastValue.iloc returns value[r % R][c % C] for symbolic value, r, c; R09.4 row_offset of every _encode call in "
+        "_render_body = the cursor the segment starts from (generic boundary iteration + abstracted loop); R09.5 row-space agreement; R09.6 "
+        "per-page deep copy and alias-free, exactly shaped expansion (C07 R07.4; BroadcastValue.to_list interpreted in a list-shape/alias domain "
+        "over a symbolic block and dimension); R09.7 attribute columns cut by original-frame positions (structural rule, C08 R08.3).")
+    ctx.assume("pydantic validates attribute shapes; BroadcastValue is the only lookup path; its `value` validator normalises scalars and flat lists to nested lists, so "
+               "value[r % len(value)][c % len(value[0])] is the documented scalar / row-vector / matrix rule")
     ctx.undecided("equality of each emitted property value with the attribute value for concrete tables (run-time)")
     r09_1_2(ctx)
     r09_3(ctx)
